@@ -187,6 +187,7 @@ theorem nexec_db (n : Node) (op : NOp) : ∃ evs, (nexec n op).db = (appendAll n
   cases op with
   | lose => exact ⟨[], rfl⟩
   | rt r => exact ⟨[], rfl⟩
+  | cap c => exact ⟨[], rfl⟩
   | ev r =>
     simp only [nexec, tstep]
     cases normalize r with
@@ -212,9 +213,9 @@ theorem nexec_db (n : Node) (op : NOp) : ∃ evs, (nexec n op).db = (appendAll n
         split
         · exact ⟨[], rfl⟩
         · exact ⟨_, rfl⟩
-      case open_ => exact ⟨[], rfl⟩
-      case delta => exact ⟨[], rfl⟩
-      case snapshot => exact ⟨[], rfl⟩
+      case open_ => cases admit n.cache n.cap e.msg <;> exact ⟨[], rfl⟩
+      case delta => cases admit n.cache n.cap e.msg <;> exact ⟨[], rfl⟩
+      case snapshot => cases admit n.cache n.cap e.msg <;> exact ⟨[], rfl⟩
       all_goals exact ⟨[_], (appendAll_single _ _).symm⟩
 
 theorem nrun_ext (h : List NOp) (n : Node) (hb : Bounded n.db) :
